@@ -328,13 +328,24 @@ func TestVerifC16Unique(t *testing.T) {
 	// (2) a counting source: consecutive generations (request and trace IDs of 20 000 requests)
 	cr := &countingReader{n: 1 << 40}
 	rand.Reader = cr
-	for i := 0; i < 20000; i++ {
+	// 70 000 requests = 140 000 generations: more than the statement's 10^5 and more than 2^17, so
+	// that an ID derived from a narrow per-process counter (16 or 17 bits) wraps inside the run
+	const nreq = 70000
+	for i := 0; i < nreq; i++ {
 		a, b := gen()
 		add(a, fmt.Sprintf("counter request %d", i))
 		add(b, fmt.Sprintf("counter trace %d", i))
 	}
+	// (3) the same number of generations with the real entropy source (a repeat among 140 000
+	// 96-bit values has probability < 1e-18: it would be a defect of the generator, not chance)
+	rand.Reader = old
+	for i := 0; i < nreq; i++ {
+		a, b := gen()
+		add(a, fmt.Sprintf("crypto/rand request %d", i))
+		add(b, fmt.Sprintf("crypto/rand trace %d", i))
+	}
 	r.AddScenario(vres.Scenario{Name: "id-uniqueness-relative-to-entropy", Engine: "H", Evaluations: evals, Distinct: int64(len(seen)), Outcomes: len(seen),
-		Rule:  "IDs generated through the real middleware with crypto/rand.Reader replaced by enumerating sources: every single-byte variation of a 12-byte block (3061 blocks) and 40 000 consecutive blocks of a counter; distinct = distinct IDs obtained",
+		Rule:  "IDs generated through the real middleware with crypto/rand.Reader replaced by enumerating sources: every single-byte variation of a 12-byte block (3061 blocks) 140 000 consecutive blocks of a counter and 140 000 generations from crypto/rand; distinct = distinct IDs obtained",
 		Bound: "all enumerated entropy blocks", Exhaustive: true, Sample: map[string]interface{}{"an_id": func() string { a, _ := gen(); return a }()},
 		Extra: map[string]interface{}{"wall_s": time.Since(start).Seconds(), "note": "uniqueness is decided relative to the entropy source; that crypto/rand does not repeat blocks is not a property of Helios"}})
 }
